@@ -21,6 +21,8 @@ package hlist
 //@   ensures Eq(verifspec.P2(Unapply(c)), verifspec.P2(Head(c), Tail(c)))
 //@   ensures Eq(verifspec.P2(Unapply(Concat(h, t))), verifspec.P2(h, t))
 //
+// (IsNil is written with explicit type arguments because the bare spelling `IsNil(` is
+// reserved by the contract language for its own ghost predicate.)
 //@ lemma nilDef[H any, T any](c Cons[H, T])
 //@   prop C14
 //@   ensures Eq(Empty(), Nil{})
